@@ -4,7 +4,8 @@ CONSTANTS
   MaxEpoch = 3
   MaxFaults = 1
   Variant = "asbuilt"
-CONSTRAINT AtMost2
+  Features = {"failover","restart","crash","lostreply"}
+
 INVARIANTS TypeOK NeverAhead CommitOnce DstBeforeSrc Owned NoLoneFailover
-PROPERTIES NoOlder
+PROPERTIES NoOlder Converges
 CHECK_DEADLOCK FALSE
